@@ -652,6 +652,15 @@ from mutants_r6_w4_c20 import E as _R6_W4_C20  # noqa: E402
 for _e in (_R6_W4, _R6_W4_C17, _R6_W4_C18, _R6_W4_C19, _R6_W4_C20):
     MUTANTS.extend(_e)
 
+# ---- round 7: W4 and its sub-workers
+from mutants_r7_w4 import E as _R7_W4  # noqa: E402
+from mutants_r7_w4_c17 import E as _R7_W4_C17  # noqa: E402
+from mutants_r7_w4_c18 import E as _R7_W4_C18  # noqa: E402
+from mutants_r7_w4_c20 import E as _R7_W4_C20  # noqa: E402
+
+for _e in (_R7_W4, _R7_W4_C17, _R7_W4_C18, _R7_W4_C20):
+    MUTANTS.extend(_e)
+
 # ---- round 3: C17 (W4-c17)
 # fact-level rules of checks/c17e.py (find_clashes / main evaluated on input-class representatives) on top of the stored
 # round-3 refactors C17-r3 (find_clashes restructured) and C17-r4 (radius table, group_clashes helper, report with .items())
